@@ -3,6 +3,8 @@
 
 #include "patternformatter.h"
 
+#include <limits>
+
 #include <optional>
 
 #include <QSharedPointer>
@@ -771,7 +773,10 @@ public:
         if (m_removeBefore > 0 && dest.size() >= m_removeBefore) {
             dest.chop(m_removeBefore);
         }
-        removeAfter += m_removeAfter;
+        // Counts of adjacent missing attributes add up; they come from the pattern text, so keep
+        // the sum inside [0, INT_MAX] instead of overflowing
+        removeAfter = static_cast<int>(qBound<qint64>(0, qint64(removeAfter) + m_removeAfter,
+                                                      std::numeric_limits<int>::max()));
     }
 
     size_t estimatedLength() const override
